@@ -14,6 +14,11 @@ type Buffer[T SignalTypes] struct {
 
 // Slice the Buffer with respect to channels.
 func (b *Buffer[T]) Slice(start, end int) *Buffer[T] {
+	// check bounds in frames, multiplication by number of channels below
+	// can overflow and wrap into the valid range.
+	if start < 0 || end < start || end > b.Capacity() {
+		panic("slice bounds out of range")
+	}
 	start = b.BufferIndex(0, start)
 	end = b.BufferIndex(0, end)
 	return &Buffer[T]{
